@@ -929,7 +929,10 @@ def run_leaves(ctx, out, exe, vm_sample):
     for i, r in enumerate(rows):
         if r["kind"] == "n" and r["extra"] != "ok":
             bad[i] = "NUMBER re-read by std differs from the node's value"
-        if r["dflag"] not in ("ok", "okp") or r["rflag"] not in ("ok", "okp"):
+        # numbers: the value comparison above decides; the re-parsed NODE may record another exponent (a number whose
+        # mantissa/exponent spelling would lose precision is written by `{:e}`), which is presentation, not meaning
+        accepted = ("ok", "okp", "diff") if r["kind"] == "n" else ("ok", "okp")
+        if r["dflag"] not in accepted or r["rflag"] not in accepted:
             bad[i] = (bad.get(i, "") + " darklua parser: %s/%s" % (r["dflag"], r["rflag"])).strip()
     # non-trivial: the literal contains an escape or is a long bracket
     nt = sum(1 for r in rows if r["kind"] == "n" or b"\\" in bytes.fromhex(r["dense"]) or b"[[" in bytes.fromhex(r["dense"])
